@@ -33,6 +33,9 @@ def mesh_spec(draw, tier="quick", sources=("device", "grid", "delaunay", "ring")
     else:
         spec = dict(src="ring", nr=draw(st.integers(2, 5 if not big else 8)), nt=draw(st.integers(8, 20 if not big else 36)),
                     r0=draw(gen.rf(0.5, 2.0)), dr=draw(gen.rf(0.3, 1.0)), twist=draw(gen.rf(0.0, 0.4)))
+    if src != "device" and draw(st.integers(0, 3)) == 0:
+        # coordinates in very small / very large units: the identities are scale free
+        spec["scale"] = draw(gen.logu(-6, 8))
     if synthetic and src != "device" and draw(st.integers(0, 2)) == 0:
         spec["weights"] = dict(a=[draw(gen.rf(0.0, 0.6)), draw(gen.rf(0.3, 3.0)), draw(gen.rf(0.0, 6.0))],
                                s=[draw(gen.rf(0.0, 0.6)), draw(gen.rf(0.3, 3.0)), draw(gen.rf(0.0, 6.0))])
@@ -124,6 +127,9 @@ def make_mesh(spec):
                 tris += [[p, r_, s], [p, s, q]]
         tris = np.array(tris)
         info["holes"] = 1
+    if spec.get("scale"):
+        pts = pts * float(spec["scale"])
+        info["scaled"] = True
     # drop degenerate (zero-area) triangles that Delaunay may emit on collinear hull points
     p = pts[tris]
     area = 0.5 * ((p[:, 1, 0] - p[:, 0, 0]) * (p[:, 2, 1] - p[:, 0, 1]) - (p[:, 2, 0] - p[:, 0, 0]) * (p[:, 1, 1] - p[:, 0, 1]))
